@@ -123,7 +123,8 @@ fn settle_cleanup(exits_before: usize) {
 
 // ---------------------------------------------------------------- configuration
 pub struct Cfg {
-    pub spec_parts: (Vec<u8>, Option<Vec<u8>>, bool, Option<Vec<u8>>),
+    pub spec_parts: (Vec<u8>, Option<Vec<u8>>, Option<bool>, Option<Vec<u8>>),
+    pub rot_first: bool,
     pub append: bool,
     pub cap: Option<usize>,
     pub asyn: Option<(usize, usize)>,
@@ -182,7 +183,8 @@ pub fn parse_cfg(s: &str) -> Cfg {
         Some((crit, naming, cleanup))
     };
     Cfg {
-        spec_parts: (unhex(f[0]), opt_unhex(f[1]), f[2] == "1", opt_unhex(f[3])),
+        spec_parts: (unhex(f[0]), opt_unhex(f[1]), match f[2] { "1" => Some(true), "0" => Some(false), _ => None }, opt_unhex(f[3])),
+        rot_first: f[2] == "D",
         append: f[4] == "1",
         cap: if f[5] == "~" || f[5].starts_with('a') { None } else { Some(f[5].parse().unwrap()) },
         asyn: f[5].strip_prefix('a').map(|r| {
@@ -197,12 +199,16 @@ pub fn parse_cfg(s: &str) -> Cfg {
     }
 }
 pub fn file_spec(c: &Cfg, dir: &Path) -> FileSpec {
-    FileSpec::default()
+    let fs = FileSpec::default()
         .directory(dir)
         .basename(ustr(&c.spec_parts.0))
         .o_discriminant(c.spec_parts.1.as_ref().map(|b| ustr(b)))
-        .use_timestamp(c.spec_parts.2)
-        .o_suffix(c.spec_parts.3.as_ref().map(|b| ustr(b)))
+        .o_suffix(c.spec_parts.3.as_ref().map(|b| ustr(b)));
+    // None: the time-stamp setting stays undecided (a start time is then used exactly if there is no rotation)
+    match c.spec_parts.2 {
+        Some(b) => fs.use_timestamp(b),
+        None => fs,
+    }
 }
 pub fn builder(c: &Cfg, dir: &Path, link: &Path) -> FileLogWriterBuilder {
     let mut b = FileLogWriter::builder(file_spec(c, dir))
@@ -296,7 +302,14 @@ pub fn run_case_via_logger(id: &str, toks: &[&str]) -> String {
     r
 }
 fn logger_of(c: &Cfg, dir: &Path, link: &Path) -> Result<(Box<dyn log::Log>, flexi_logger::LoggerHandle), flexi_logger::FlexiLoggerError> {
-    let mut l = flexi_logger::Logger::with(flexi_logger::LogSpecification::trace())
+    let mut l = flexi_logger::Logger::with(flexi_logger::LogSpecification::trace());
+    // the order of rotate() and log_to_file() must not matter
+    if c.rot_first {
+        if let Some((crit, naming, cleanup)) = c.rot {
+            l = l.rotate(crit, naming, cleanup);
+        }
+    }
+    let mut l = l
         .log_to_file(file_spec(c, dir))
         .format_for_files(raw_format)
         .o_append(c.append)
@@ -311,8 +324,10 @@ fn logger_of(c: &Cfg, dir: &Path, link: &Path) -> Result<(Box<dyn log::Log>, fle
             (None, None) => WriteMode::Direct,
             (Some(n), None) => WriteMode::BufferDontFlushWith(n),
         });
-    if let Some((crit, naming, cleanup)) = c.rot {
-        l = l.rotate(crit, naming, cleanup);
+    if !c.rot_first {
+        if let Some((crit, naming, cleanup)) = c.rot {
+            l = l.rotate(crit, naming, cleanup);
+        }
     }
     if c.utc {
         l = l.use_utc();
